@@ -218,6 +218,18 @@ def real_layer_cases(tier, seed, f32=False):
                      {"op": "backward", "args": [4]},
                      {"op": "cost", "kind": "mse", "args": [2, 3], "res": 5}, {"op": "sum_all", "args": [5]}]
             cases.append(steps)
+    # cross-entropy / mse with a target of lower rank than the output ([n] against [1, n]): the leading dimension
+    # that divides is the OUTPUT's
+    for n in (2, 3, 5):
+        for b in (1, 2):
+            od = [b, n]
+            td = [n] if b == 1 else [1, n]
+            steps = [RESET, rleaf(1, od, draw(rnd, b * n, "pos"), trk=True, f32=f32), op("softmax", [1], 2),
+                     rleaf(3, td, [float(k == 1) for k in range(n)], f32=f32),
+                     {"op": "cost", "kind": "ce", "args": [2, 3], "res": 4}, {"op": "sum_all", "args": [4]},
+                     {"op": "backward", "args": [4]},
+                     {"op": "cost", "kind": "mse", "args": [2, 3], "res": 5}, {"op": "sum_all", "args": [5]}]
+            cases.append(steps)
     for cnt in (1, 2):
         for act in ("sigmoid", "relu"):
             init = [rnd.uniform(-1, 1) for _ in range(12)]
